@@ -4,8 +4,10 @@ import (
 	"fmt"
 
 	"github.com/jsightapi/jsight-schema-go-library/errors"
+	"github.com/jsightapi/jsight-schema-go-library/internal/json"
 	"github.com/jsightapi/jsight-schema-go-library/internal/lexeme"
 	"github.com/jsightapi/jsight-schema-go-library/notations/jschema/internal/schema"
+	"github.com/jsightapi/jsight-schema-go-library/notations/jschema/internal/schema/constraint"
 	"github.com/jsightapi/jsight-schema-go-library/notations/jschema/internal/validator"
 )
 
@@ -33,9 +35,30 @@ func (c mixedChecker) Check(nodeLex lexeme.LexEvent) (err errors.Error) {
 		}
 	}()
 
-	if nodeLex.Type() == lexeme.LiteralEnd {
+	switch nodeLex.Type() { //nolint:exhaustive // Other lexemes are not a basis of a node.
+	case lexeme.LiteralEnd:
 		validator.ValidateLiteralValue(c.node, nodeLex.Value()) // can panic
+	case lexeme.ArrayBegin:
+		c.checkEmptyArray() // can panic
 	}
 
 	return nil
+}
+
+// checkEmptyArray checks the array EXAMPLE the "or" rule is written on against
+// the rule-set. Such an array has no items (ErrInvalidChildNodeTogetherWithOrRule).
+func (c mixedChecker) checkEmptyArray() {
+	if c.node.Constraint(constraint.AnyConstraintType) != nil {
+		return
+	}
+
+	if t := c.node.Type(); t != json.TypeArray {
+		panic(errors.Format(errors.ErrInvalidValueType, json.TypeArray.String(), t.String()))
+	}
+
+	c.node.ConstraintMap().EachSafe(func(_ constraint.Type, v constraint.Constraint) {
+		if av, ok := v.(constraint.ArrayValidator); ok {
+			av.ValidateTheArray(0) // can panic
+		}
+	})
 }
